@@ -12,7 +12,13 @@ use std::sync::Arc;
 /// every marker descriptor also calls back into the engine (parse + describe of a literal) before it answers: user descriptors may
 /// do that, and describe() must still return
 fn reenter() {
-    let _ = parse_expression("7").map(|a| a.describe());
+    thread_local!(static INSIDE: std::cell::Cell<bool> = std::cell::Cell::new(false));
+    if INSIDE.with(|c| c.replace(true)) {
+        return; // only the outermost descriptor re-enters
+    }
+    // a small tree whose rendering looks up descriptors of several kinds itself (none of its names is in the key universe)
+    let _ = parse_expression("[zz9, - zz8 ++, qq(1) ? 2 : {3: 4}]").map(|a| a.describe());
+    INSIDE.with(|c| c.set(false));
 }
 
 fn set_marker(kind: &str, name: &str, id: &str) {
